@@ -241,7 +241,9 @@ var c19AttrVals = []string{
 	"Voilà déjà vu", "Ångström Å", "dagger † sign", "nb sp inside", "日本語 テキスト", "smile 🙂 ok", "Größe: 10 µm", "à", "Å  †",
 	`{{ v }} and &amp; more`, `a&amp;b=c`, `&copy; 2026`, `x >= 1 &amp;&amp; y <= 2`, `[1, 2, 3]`, `fn('a', &quot;b&quot;)`, `100%`, `#/path?a=1&amp;b=2`,
 }
-var c19Mustaches = []string{`{{ a < b }}`, `{{ a > b && c }}`, `{{ x | upper }}`, `{{ a ? "<" : '&' }}`, `{{ items[0].name }}`, `{{  spaced   out  }}`, `{{ a }}{{ b }}`, `{{ "&lt;" }}`, `{{ a &lt;b }}`, `{{ x &lt;/y }}`, `{{ "&amp;lt;" }}`, `{{ a &amp;&amp; b }}`, `{{ n >= 10 ? "10+" : n }}`}
+var c19Mustaches = []string{`{{ a < b }}`, `{{ a > b && c }}`, `{{ x | upper }}`, `{{ a ? "<" : '&' }}`, `{{ items[0].name }}`, `{{  spaced   out  }}`, `{{ a }}{{ b }}`, `{{ "&lt;" }}`, `{{ a &lt;b }}`, `{{ x &lt;/y }}`, `{{ "&amp;lt;" }}`, `{{ a &amp;&amp; b }}`, `{{ n >= 10 ? "10+" : n }}`,
+	// an ampersand followed by a reference name that parsers decode WITHOUT a semicolon, no semicolon anywhere in the expression
+	`{{ base + "?a=1&amp;copy=2" }}`, `{{ a &amp;lt b }}`, `{{ q + "&amp;not" }}`, `{{ "&amp;#60" + x }}`, `{{ u + "&amp;amp" }}`}
 
 func c19Text(r *Rng) string {
 	var ws []string
